@@ -73,9 +73,10 @@ def values(kind) -> list:
     if kind == 'styles':
         return ['00000000', 'ffffffff', '01020304']
     if kind == 'name128':
-        return ['', 'a', 'Models/Props_x/a b.mdl', NAME127, NAME127 + 'z']
+        # bytes > 127 travel as surrogate escapes: a lone one, and a pair that happens to be valid UTF-8 (C3 A9)
+        return ['', 'a', 'Models/Props_x/a b.mdl', NAME127, NAME127 + 'z', 'models/x\udce9.mdl', 'models/caf\udcc3\udca9/t.mdl']
     if kind == 'name127':
-        return ['', 'a', 'Brick/Wall_01b', NAME127]
+        return ['', 'a', 'Brick/Wall_01b', NAME127, 'caf\udcc3\udca9/wall']
     if kind == 'ambient':
         return [bytes(24).hex(), bytes(range(200, 224)).hex()]
     raise KeyError(kind)
@@ -589,6 +590,12 @@ class BModels(Family):
         a['extras'] = {'nodes': [copy.deepcopy(a['nodes'][1])]}
         a['bmodels'][1]['node'] = ['x', 0]
         out.append(('dangling_node', a))
+        # the mapping assigned to bsp.bmodels was filled brush entities first and worldspawn last: the world is still model 0
+        # (the observer numbers models by first appearance in entity order, so the expectation does not depend on the file's numbering)
+        a = copy.deepcopy(w)
+        a['bmodels'][1]['mins'] = [-3.0, -3.0, -3.0]
+        a.setdefault('extras', {})['__bmodels_insert_reversed'] = True
+        out.append(('world_inserted_last', a))
         return out
 
 
